@@ -223,6 +223,48 @@ theorem replay_curVer (e : Env) (prop : String) (pre : List Nat) (R : St) (hid :
   · exact Or.inl h
   · exact Or.inr ⟨w, o, app_mem_blockOps _ _ w hw, h⟩
 
+/-- a kept pending transaction `a` does not spend an output of a transaction `i` of the block that it does not follow in
+the pool: at its point in the pool `i` was not applied (fresh ids), or `i` is a pending transaction that was not kept -/
+theorem absorb_cite (e : Env) (P K B : List Nat) (R : St)
+    (hP : PoolOK e P R) (hndP : P.Nodup) (hKP : K.Sublist P)
+    (hfreshU : ∀ i ∈ P ++ B, ∀ o, lookup R.U (i, o) = none)
+    (hev : ∀ i ∈ P, i ∉ K → ∀ a ∈ K, a ≠ i → ∀ r ∈ (e.tx a).ins, r.tx ≠ i) :
+    ∀ i ∈ B, ∀ a ∈ K, a ≠ i → (i ∈ K → [a, i].Sublist K) → ∀ r ∈ (e.tx a).ins, r.tx ≠ i := by
+  intro i hiB a haK hai hord
+  have haP : a ∈ P := hKP.subset haK
+  have hwf := hP.wf
+  intro r hr hri
+  obtain ⟨p, q, hPs⟩ := List.append_of_mem haP
+  have hv := hP.valid
+  rw [hPs] at hv
+  simp only [List.map_append, List.map_cons] at hv
+  obtain ⟨_, hv2⟩ := (pValid_append e _ _ R).mp hv
+  obtain ⟨⟨lh, hadm⟩, _⟩ := (pValid_cons e _ _ _).mp hv2
+  obtain ⟨hcur, _⟩ := XV.C03.admit_sound _ lh _ hadm
+  obtain ⟨u, hu, _⟩ := hcur r hr
+  rw [hri] at hu
+  have hidp : ∀ op ∈ p.map POp.app, (e.tx (opId op)).id = opId op := by
+    intro op hop
+    obtain ⟨j, hj, rfl⟩ := List.mem_map.mp hop
+    exact (hwf j (by rw [hPs]; simp [hj])).id
+  by_cases hip : i ∈ p
+  · have hiP : i ∈ P := by rw [hPs]; simp [hip]
+    by_cases hiK : i ∈ K
+    · have h1 : [a, i].Sublist P := (hord hiK).trans hKP
+      have h2 : [i, a].Sublist P := by
+        rw [hPs]
+        exact List.Sublist.append (List.singleton_sublist.mpr hip)
+          (List.singleton_sublist.mpr List.mem_cons_self)
+      exact nodup_pair_order P a i hndP h1 h2
+    · exact hev i hiP hiK a haK hai r hr hri
+  · have := prun_row_other e _ R i r.off u hidp
+      (fun op hop h => by
+        obtain ⟨j, hj, rfl⟩ := List.mem_map.mp hop
+        simp only [opId] at h
+        exact hip (h ▸ hj)) hu
+    rw [hfreshU i (List.mem_append_right _ hiB) r.off] at this
+    cases this
+
 /-- **the hypothesis `H1` of `absorb`**, for a pool `P` valid on `R`, the kept part `K` of it (a sublist) and a block `B`
 that can be replayed on `R`, all ids fresh in `R`. Two things are left to the caller, because they depend on how the
 node chose `K` and `B`: a kept transaction outside the block has no read that the block makes stale (`hstale`), and a
@@ -345,38 +387,7 @@ theorem absorb_H1 (e : Env) (prop : String) (P K B : List Nat) (R : St)
             exact hd hw1
         · -- `a` stays pending
           exact hstale pre i post hsplit a haK haB hord pk hpk hnw' hwi hcv
-  · -- `a` does not spend an output of `i`
-    intro r hr hri
-    obtain ⟨p, q, hPs⟩ := List.append_of_mem haP
-    have hv := hP.valid
-    rw [hPs] at hv
-    simp only [List.map_append, List.map_cons] at hv
-    obtain ⟨_, hv2⟩ := (pValid_append e _ _ R).mp hv
-    obtain ⟨⟨lh, hadm⟩, _⟩ := (pValid_cons e _ _ _).mp hv2
-    obtain ⟨hcur, _⟩ := XV.C03.admit_sound _ lh _ hadm
-    obtain ⟨u, hu, _⟩ := hcur r hr
-    rw [hri] at hu
-    have hidp : ∀ op ∈ p.map POp.app, (e.tx (opId op)).id = opId op := by
-      intro op hop
-      obtain ⟨j, hj, rfl⟩ := List.mem_map.mp hop
-      exact (hwf j (by rw [hPs]; simp [hj])).id
-    by_cases hip : i ∈ p
-    · have hiP : i ∈ P := by rw [hPs]; simp [hip]
-      by_cases hiK : i ∈ K
-      · have h1 : [a, i].Sublist P := (hord hiK).trans hKP
-        have h2 : [i, a].Sublist P := by
-          rw [hPs]
-          exact List.Sublist.append (List.singleton_sublist.mpr hip)
-            (List.singleton_sublist.mpr List.mem_cons_self)
-        exact nodup_pair_order P a i hndP h1 h2
-      · exact hev i hiP hiK a haK hai r hr hri
-    · have := prun_row_other e _ R i r.off u hidp
-        (fun op hop h => by
-          obtain ⟨j, hj, rfl⟩ := List.mem_map.mp hop
-          simp only [opId] at h
-          exact hip (h ▸ hj)) hu
-      rw [hfreshU i (List.mem_append_right _ hiB) r.off] at this
-      cases this
+  · exact absorb_cite e P K B R hP hndP hKP hfreshU hev i hiB a haK hai hord
 
 /-- the hypothesis `H1` of `absorb` for an accepted `play`: staleness is excluded by `conflicts`, spending an evicted
 transaction's output by the closure -/
